@@ -208,6 +208,10 @@ TLoad ==
                         <<Ev.rcount = Len(stored), "C05:Count() of the restored snapshot differs from the stored snapshot">> >>)
        ELSE /\ UNCHANGED <<vars, drift, stored, dx>>
             /\ bad' = Note(bad, "C05:LoadFromDisk failed on an undamaged backup", "BAD")
+(* the instance has been closed (all snapshots and iterators given back): the allocator's verdict *)
+TEnd == /\ l <= N /\ Ev.e = "End" /\ l' = l + 1 /\ UNCHANGED <<vars, drift, stored, dx>>
+        /\ bad' = Note(bad, IF Len(Ev.allocerrs) > 0 THEN "C04:the allocator reports: " \o Ev.allocerrs[1]
+                            ELSE IF Ev.live # 0 THEN "C07:blocks are still allocated after Close returned (leak)" ELSE "", "BAD")
 (* a panic raised by a legal call sequence is behaviour of the real code (driver: guarded()) *)
 TPanic == /\ l <= N /\ Ev.e = "Panic" /\ l' = l + 1 /\ UNCHANGED <<vars, drift, stored, dx>>
           /\ bad' = Note(bad, "PANIC:the call panicked: " \o Ev.msg \o " (" \o Ev.where \o ")", "BAD")
@@ -215,7 +219,7 @@ TDone == l = N + 1 /\ UNCHANGED tvars
 
 TNext == \/ TReset \/ TPut \/ TDelete \/ TGetNode \/ TNewSnapshot \/ TOpen \/ TCloseSnap \/ TGC \/ TGCUnlink
          \/ TIterNew \/ TIterSetRate \/ TIterSeek \/ TIterSeekFirst \/ TIterNext \/ TIterRefresh \/ TIterClose
-         \/ TVisit \/ TStoreBegin \/ TStore \/ TLoad \/ TPanic \/ TDone
+         \/ TVisit \/ TStoreBegin \/ TStore \/ TLoad \/ TEnd \/ TPanic \/ TDone
 TSpec == TInit /\ [][TNext]_tvars
 Good == bad = ""
 =============================================================================
